@@ -36,7 +36,10 @@ Inductive eclass := EHttp4xx | ETooLarge | EOther.
 (* ---- a tiny file system: output path id -> what the file holds ---- *)
 Definition path := N.
 Inductive content :=
-| CPre        (* existed before the request (e.g. the object of an earlier build) *)
+| CPre (kind : N)  (* existed before the request (e.g. the object of an earlier build); kind = how its length
+                     compares with what is written over it later: 0 shorter, 1 equal, 2 longer.  Nothing in the
+                     model inspects it: File::create truncates, so the old length cannot matter — which is what
+                     C13_effect_independent_of_preexisting states and the byte-exact harness listing checks *)
 | CRemote     (* completely written from a fetched remote output *)
 | CPartial    (* created by the client, remote data only partly written *)
 | CLocal.     (* written by the local compiler *)
